@@ -178,15 +178,16 @@ def main():
     if lean["build_ok"] and obligations < getattr(P, "MIN_THEOREMS", 1):
         tie_broken.append(f"lean: only {obligations} property theorems found, expected at least {P.MIN_THEOREMS}")
     discharged = obligations - len(lean["bad"]) if lean["build_ok"] else 0
-    checker = f"cd lean && lake build Pendulum.Props.{pid} && lake env lean ../.cache/Audit_{pid}.lean"
+    pmods = " ".join(C.prop_modules(pid))
+    checker = f"cd lean && lake build {pmods} && lake env lean ../.cache/Audit_{pid}.lean"
     if tier == "thorough" and lean["build_ok"]:
         t1 = time.time()
         with C.Lock("lake"):
             import subprocess
-            p = subprocess.run(["lake", "env", "leanchecker", f"Pendulum.Props.{pid}"], cwd=C.LEAN, capture_output=True, text=True)
+            p = subprocess.run(["lake", "env", "leanchecker"] + C.prop_modules(pid), cwd=C.LEAN, capture_output=True, text=True)
         if p.returncode != 0:
             tie_broken.append("leanchecker rejected Pendulum.Props.%s: %s" % (pid, (p.stdout + p.stderr)[-800:]))
-        checker += f" && lake env leanchecker Pendulum.Props.{pid}  # {time.time() - t1:.0f}s"
+        checker += f" && lake env leanchecker {pmods}  # {time.time() - t1:.0f}s"
 
     # 4/5. correspondence + oracle
     acc = Acc(P, pid)
